@@ -337,8 +337,9 @@ def child_main(case, root):
 
     def rec_sym(fullname, namespaces, db=None, autoimported=None, post_import_hook=None):
         n_try = len(rec["try"])
+        needed = bool(A.symbol_needs_import(fullname, namespaces))      # at this name's turn (pure: C20)
         res = orig_sym(fullname, namespaces, db, autoimported, post_import_hook=post_import_hook)
-        rec["sym"].append({"name": str(fullname), "res": bool(res), "tries": len(rec["try"]) - n_try})
+        rec["sym"].append({"name": str(fullname), "res": bool(res), "tries": len(rec["try"]) - n_try, "needed": needed})
         return res
     A._try_import, A.find_missing_imports, A.auto_import_symbol = rec_try, rec_fmi, rec_sym
     A.exec = rec_exec
@@ -819,6 +820,8 @@ def oracle(ctx, prop, case, im):
                     if p in index:
                         ent = index[p]
                         break
+                if not s["needed"]:
+                    continue            # resolved meanwhile by the import made for another name of the call
                 if ent is not None and len(ent) > 1:
                     if s["res"] or s["tries"] or st["r"] is not False:
                         bad.append(("ambiguous_or_unknown_fails", "call %d (%r): %r has %d candidates but result=%r tries=%d call=%r" % (k, code, s["name"], len(ent), s["res"], s["tries"], st["r"])))
